@@ -304,6 +304,8 @@ def run(prop, tier):
                 if res[0].files and "thread.pcf" in res[0].files:
                     pcf = pv.parse_pcf(res[0].files["thread.pcf"])
                     for ty in g.types:
+                        if ty >= 100:
+                            continue    # user mark types are labelled with the user's title, no mode suffix
                         lab = pcf.get(ty, ("", {}))[0]
                         shown = RUN if lab.endswith("RUNNING thread") else ACT if lab.endswith("ACTIVE thread") else ANY
                         if ty in pcf and shown != MODE[ty]:
